@@ -51,6 +51,8 @@ HIST_RULE = ("one case = one seeded history of 5-60 conflict-seeking {kind} requ
              "with clean restarts and crash restarts (directory image) in between; distinct = distinct history; non-trivial = at least two signatures were released. "
              "Oracle: every released signature is entered in a per-key ledger and compared pairwise with all earlier ones{strict}.")
 q, t = tiers(250, 60, 20000, 1200)
+q["layers"] = [dict(runs=250, budget_s=60, params="")] * 15 + [dict(runs=25, budget_s=60, params="mode=free")]
+t["layers"] = [dict(runs=20000, budget_s=1200, params="")] * 15 + [dict(runs=3000, budget_s=1200, params="mode=free")]
 plan("C01", "exploration", HIST_RULE.format(kind="attestation", unit="target", extra="single and batched, batches repeating a key", strict=" (double vote, surround either way)"), q, t)
 q, t = tiers(250, 60, 20000, 1200)
 plan("C02", "exploration", HIST_RULE.format(kind="proposal", unit="slot", extra="proposer and foreign domains", strict=" (same slot/different block; in sequential histories slots must strictly increase in release order)"), q, t)
@@ -80,7 +82,11 @@ def batch_layers(runs, budget, scatter_runs):
     main = dict(runs=runs, budget_s=budget, params="")
     sc = dict(runs=scatter_runs, budget_s=budget, params="mode=scatter")
     return [main] * 15 + [sc]
+def c08_layers(runs, budget, free_runs):
+    return [dict(runs=runs, budget_s=budget, params="")] * 15 + [dict(runs=free_runs, budget_s=budget, params="mode=free")]
 q, t = tiers(120, 60, 5000, 1200)
+q["layers"] = c08_layers(120, 60, 25)
+t["layers"] = c08_layers(5000, 1200, 3000)
 plan("C08", "exploration",
      BATCH_RULE.format(big="160 (quick) / 512 (thorough)") + "Kinds: attestation batch, multisign, single attestation/proposal/generic with random field values (full uint64 slot/index). "
      "Oracle: exactly one response per request; every returned signature BLS-verifies under the public key of the account addressed at that position over a signing root "
@@ -169,10 +175,10 @@ plan("C13", "fault_enumeration",
 def all_matrix_layers(runs, budget, mw=16, extra=""):
     return [dict(runs=runs, budget_s=budget, params="mode=matrix,mw=%d,mW=%d%s" % (k, mw, extra)) for k in range(mw)]
 q, t = tiers(30, 90, 600, 1200)
-q["layers"] = all_matrix_layers(30, 90, mw=15) + [dict(runs=50, budget_s=90, params="mode=tls")]
-t["layers"] = all_matrix_layers(600, 1200, mw=15) + [dict(runs=50, budget_s=1200, params="mode=tls")]
+q["layers"] = all_matrix_layers(35, 90, mw=14) + [dict(runs=50, budget_s=90, params="mode=tls"), dict(runs=8, budget_s=90, params="mode=tlsconc")]
+t["layers"] = all_matrix_layers(600, 1200, mw=14) + [dict(runs=50, budget_s=1200, params="mode=tls"), dict(runs=300, budget_s=1200, params="mode=tlsconc")]
 q["require_complete"] = t["require_complete"] = [("matrix_cases", "matrix_total"), ("edge_cases", "edge_total")]
-q["require_probes"] = t["require_probes"] = ["legit_continuations_ok", "share_ownership_checks", "peer_contribution_replies_checked", "ownership_generations", "edge_genuine_peer_served", "edge_non_peer_calls"]
+q["require_probes"] = t["require_probes"] = ["legit_continuations_ok", "share_ownership_checks", "peer_contribution_replies_checked", "ownership_generations", "edge_genuine_peer_served", "edge_non_peer_calls", "edge_concurrent_non_peer_calls"]
 plan("C16", "exploration",
      "the table caller identity {a peer, a configured peer that is not a participant of the generation, an ordinary client with all permissions, empty name, unknown name, a peer's name in upper case, a peer's name with a suffix} x message "
      "{prepare, execute, contribute (with a contribution that would verify), commit, abort} x session state at the receiving instance {none, prepared, executed, committed, aborted, "
@@ -182,7 +188,9 @@ plan("C16", "exploration",
      "at the recipient's id and at no other participant's id.",
      q, t, real_vs_stub=REAL_W2)
 q, t = tiers(200, 60, 10000, 1200)
-q["require_probes"] = t["require_probes"] = ["life_commit_ok", "life_abort", "life_clock_advances", "life_execute_ok"]
+q["layers"] = [dict(runs=200, budget_s=60, params="")] * 15 + [dict(runs=12, budget_s=60, params="mode=free")]
+t["layers"] = [dict(runs=10000, budget_s=1200, params="")] * 15 + [dict(runs=1500, budget_s=1200, params="mode=free")]
+q["require_probes"] = t["require_probes"] = ["life_commit_ok", "life_abort", "life_clock_advances", "life_execute_ok", "free_simultaneous_prepares"]
 plan("C17", "exploration",
      "one case = one seeded sequence of 8-31 events {prepare, execute, commit, abort on a drawn instance for one of 1-3 account names; clock advance: a third of the timeout / exactly "
      "onto, 1 ns short of, 1 ns past the expiry of a session / well past it} on a 3-instance cluster with generation timeout drawn from {1 ms, 1 s, 70 s, 10 min}, biased towards the "
@@ -241,6 +249,8 @@ for _p in ("C12", "C13", "C14", "C16", "C17"):
 PLANS["C03"]["replay_attempts"] = 6
 # Free-running layers (C15 deadlock detector, C19 two-client load, C20 volleys) are seeded in their workload, not in
 # their interleaving: a finding is reported only if it shows again within this many repetitions in a fresh process.
+PLANS["C01"]["replay_attempts"] = 6
+PLANS["C08"]["replay_attempts"] = 6
 PLANS["C15"]["replay_attempts"] = 6
 PLANS["C19"]["replay_attempts"] = 40
 PLANS["C20"]["replay_attempts"] = 6
